@@ -1,0 +1,28 @@
+//go:build verif
+
+package collections
+
+import "sort"
+
+// VerifKeys returns the keys currently stored (expired or not), sorted. Verification hook: read-only.
+func (m *TTLMap) VerifKeys() []string {
+	m.mutex.RLock()
+	defer m.mutex.RUnlock()
+	keys := make([]string, 0, len(m.elements))
+	for k := range m.elements {
+		keys = append(keys, k)
+	}
+	sort.Strings(keys)
+	return keys
+}
+
+// VerifPeek returns the value stored under key without touching expiry. Verification hook: read-only.
+func (m *TTLMap) VerifPeek(key string) (interface{}, int, bool) {
+	m.mutex.RLock()
+	defer m.mutex.RUnlock()
+	el, ok := m.elements[key]
+	if !ok {
+		return nil, 0, false
+	}
+	return el.value, el.heapEl.Priority, true
+}
